@@ -79,10 +79,12 @@ def ensure_built(log):
     lock = open(os.path.join(VERIF, '.build.lock'), 'w')
     fcntl.flock(lock, fcntl.LOCK_EX)
     try:
-        if not os.path.exists(os.path.join(COQ, 'Makefile')):
-            files = sorted(os.path.relpath(p, COQ) for p in glob.glob(os.path.join(COQ, 'theories', '**', '*.v'), recursive=True))
+        files = sorted(os.path.relpath(p, COQ) for p in glob.glob(os.path.join(COQ, 'theories', '**', '*.v'), recursive=True))
+        listed = os.path.join(COQ, '.vfiles')
+        if not os.path.exists(os.path.join(COQ, 'Makefile')) or not os.path.exists(listed) or open(listed).read().split() != files:
             subprocess.run(['coq_makefile', '-f', '_CoqProject', '-o', 'Makefile'] + files, cwd=COQ, check=True,
                            stdout=subprocess.DEVNULL)
+            open(listed, 'w').write('\n'.join(files))
         t = time.time()
         r = subprocess.run(['timeout', '1800', 'make', '-j16', '-C', COQ], stdout=subprocess.PIPE, stderr=subprocess.STDOUT, text=True)
         log['make_s'] = round(time.time() - t, 1)
